@@ -124,15 +124,31 @@ meta("C11", explanation="join/clear/stop/start postconditions over the trusted Q
      assumptions=[], not_decided=["stop() always returns (termination)", "wall-clock meaning of timeouts"])
 meta("C12", explanation="frame clauses of the serving path (handler-only state, server Config never written), one response per "
                         "request, process_request -> exactly one enqueue, server_close order; precondition of BaseServer.shutdown.",
-     trusted_base=["socketserver: one handler instance per connection; BaseServer.shutdown requires serve_forever running",
+     trusted_base=["socketserver: one handler instance per connection; BaseServer.shutdown requires serve_forever running "
+                   "or about to run (CPython tests the shutdown request at loop entry)",
                    "http.server response primitives do not raise"] + _POOL_TB,
-     assumptions=[], not_decided=["termination of shutdown(), OS scheduling, kernel socket behaviour"])
+     # the request pool carries every connection of a pooled server: its accounting counts for "no lost or duplicated
+     # executions" and "every worker of the request pool it stops terminates"
+     include=["jsonrpclib.threadpool.ThreadPool.__run", "jsonrpclib.threadpool.ThreadPool.enqueue",
+              "jsonrpclib.threadpool.ThreadPool.__start_thread", "jsonrpclib.threadpool.ThreadPool.stop",
+              "jsonrpclib.threadpool.ThreadPool.start", "jsonrpclib.threadpool.ThreadPool.clear"],
+     assumptions=["the published serving flag is raised only while serve_forever() is about to run / running: obligations "
+                  "serving_flag_raised_before_the_loop and serving_flag_lowered_on_every_exit of PooledJSONRPCServer.serve_forever; "
+                  "that other threads then observe flag => loop is a rely argument, not an obligation"],
+     not_decided=["termination of shutdown(), OS scheduling, kernel socket behaviour"])
 meta("C15", explanation="structural induction: primitives returned as the same value, sequences element-wise to lists, dicts "
                         "value-wise with the same keys; argument unchanged on every exit (frame on the parameter).",
      trusted_base=["jc_dump/jc_load determinism (assumed)"], assumptions=["sets are modelled positionally"], not_decided=[])
-meta("C16", explanation="sequential protocol proved on EventData/FutureResult; interleavings decided by the bounded one-preemption "
+meta("C16", explanation="EventData/FutureResult contracts; the registration slot is protected by the future's lock: lock discipline "
+                        "(every access to callback/extra under the lock), atomic store of a registration and atomic consumption "
+                        "(read and clear in one critical section) are obligations over the ghost slot log; ordering assertions at the "
+                        "call sites (completion is looked at after the store; the outcome is published before consumption). The "
+                        "whole-protocol conclusion (exactly once under every interleaving) is decided within a bound by the schedule "
                         "harness on the real code (see bounded_stand_ins).",
-     trusted_base=["threading.Event contract"], assumptions=["quiescent states: an outcome is stored together with the flag"],
+     trusted_base=["threading.Event / threading.Lock contracts"],
+     assumptions=["quiescent states: an outcome is stored together with the flag",
+                  "'once per registration' is read for registrations still in place at completion or made afterwards: the future "
+                  "has a single callback slot, a registration replaced before completion is owed nothing"],
      not_decided=["wall-clock accuracy of timeouts", "callbacks raising BaseException"])
 meta("C17", explanation="framing clauses on send_content/do_POST (ghost wire/out logs), request target, scheme rejection, client "
                         "reassembly (decode once), server read-loop invariant with call-site assertion.",
